@@ -60,9 +60,24 @@ def gen_segments(rng, long_ok=False):
     return segs
 
 
+# What commands write and what the capture files hold are BYTES.  They are carried around as str with one
+# character per byte (latin-1), so that concatenating pieces and concatenating bytes are the same thing (decoding
+# UTF-8 piece by piece is not: a character may be split between two pieces); nothing is ever decoded as text,
+# except for messages.
+
+def as_bytes(text):
+    '''the bytes a shell printf writes for the argument `text`, one character per byte'''
+    return text.encode('utf-8', 'surrogateescape').decode('latin-1')
+
+
+def cbytes(content):
+    '''Coq term for a byte string carried as one character per byte'''
+    return cstr(content.encode('latin-1'))
+
+
 def seg_text(segs, stream=None):
     data = b''.join(bytes.fromhex(h) for st, h in segs if stream is None or st == stream)
-    return data.decode('utf-8', 'surrogateescape')
+    return data.decode('latin-1')
 
 IMPORTS = '''From Coq Require Import String List ZArith.
 From VV Require Import Lib.Base C19.Model C19.Code.
@@ -166,6 +181,10 @@ def gen_cases(ctx):
     for k in range(0, len(raw_cmds), 3):
         cases.append({'mode': 'direct' if k % 2 else 'sched',
                       'tasks': [{'name': 'raw', 'cmds': raw_cmds[k:k + 3] + [['raw', [[2, b'end\r\n'.hex()]], 5]]}]})
+    # a multi-byte character split between two commands / two pieces: contents are bytes, not text
+    cases.append({'mode': 'direct', 'tasks': [{'name': 'split', 'cmds': [
+        ['raw', [[1, 'c3'], [2, 'e2']], 0], ['raw', [[1, 'a9'], [2, '82'], [1, 'f09f'], [2, 'ac'], [1, '9880']], 0],
+        ['sh', '\u00e9', '\u20ac', 0], ['raw', [[1, 'c3'], [2, 'c3']], 3]]}]})
     cases.append({'mode': 'direct', 'tasks': [{'name': 'big', 'cmds': [
         ['raw', [[1, (bytes(range(256)) * 800).hex()], [2, (b'\r\n' * 50000).hex()]], 0], ok]}]})
     # exhaustive small: failure kind x position for lists of 1..3 commands
@@ -245,9 +264,9 @@ def build_cli(spec, ident, mark, wdir):
 def spec_outcome(spec):
     '''(started, code, out, err) the command has when it is executed'''
     if spec[0] == 'sh':
-        return True, spec[3], spec[1], spec[2]
+        return True, spec[3], as_bytes(spec[1]), as_bytes(spec[2])
     if spec[0] == 'kill':
-        return True, -spec[2], spec[1], ''
+        return True, -spec[2], as_bytes(spec[1]), ''
     if spec[0] == 'raw':
         return True, spec[2], seg_text(spec[1], 1), seg_text(spec[1], 2)
     return False, None, '', ''
@@ -327,7 +346,7 @@ def run_case(case, wdir, mods):
         for fname in sorted(filenames):
             full = os.path.join(dirpath, fname)
             with open(full, 'rb') as fil:
-                files.append([rel_components(full, root), fil.read().decode('utf-8', 'surrogateescape')])
+                files.append([rel_components(full, root), fil.read().decode('latin-1')])
         if not dirnames and not filenames and dirpath != root:
             files.append([rel_components(dirpath, root) + [''], '<empty directory>'])
     ran = []
@@ -497,7 +516,12 @@ def gen_code_cases(ctx):
             cases.append({'mode': 'code', 'tasks': [task]})
     inter = [[1, b'o1\r\n'.hex()], [2, b'e1\r'.hex()], [1, b'o2\x00\xff'.hex()], [2, b'e2 caf\xe9\n'.hex()],
              [1, b'o3'.hex()], [2, b''.hex()], [2, b'e3\n'.hex()]]
+    split = [[1, 'e2'], [2, '82'], [1, 'ac'], [2, 'c3'], [2, 'a9'], [1, 'f0'], [1, '9f98'], [2, '80']]
     for kind in ('checkout', 'build'):
+        task = {'kind': kind, 'name': 'split', 'exe': 'script', 'steps': [[split, 0], [split[::-1], 0]]}
+        task.update({'flags': None, 'ref': None} if kind == 'checkout'
+                    else {'configure_flags': None, 'build_flags': None, 'targets': None})
+        cases.append({'mode': 'code', 'tasks': [task]})
         for c0, c1 in ((0, 0), (0, 2), (3, 0)):
             task = {'kind': kind, 'name': 'inter', 'exe': 'script', 'steps': [[inter, c0], [inter[::-1], c1]]}
             task.update({'flags': None, 'ref': None} if kind == 'checkout'
@@ -606,7 +630,7 @@ def run_code_case(case, wdir, mods):
             for fname in sorted(filenames):
                 full = os.path.join(dirpath, fname)
                 with open(full, 'rb') as fil:
-                    files['/'.join([tag] + rel_components(full, top)[1:])] = fil.read().decode('utf-8', 'surrogateescape')
+                    files['/'.join([tag] + rel_components(full, top)[1:])] = fil.read().decode('latin-1')
             if dirpath != top:
                 files.setdefault('/'.join([tag] + rel_components(dirpath, top)[1:]) + '/', '<dir>')
     calls = []
@@ -681,13 +705,13 @@ def coq_code_items(case, obs):
             continue
         steps = []
         for cli, (started, code, out, err) in zip(clis, code_outcomes(task)):
-            outcome = f'(Exited {cz(code)} {cstr(out)} {cstr(err)})' if started else 'CannotStart'
+            outcome = f'(Exited {cz(code)} {cbytes(out)} {cbytes(err)})' if started else 'CannotStart'
             steps.append('(mk_ccmd ' + clist([cstr(tok) for tok in cli]) + ' ' + outcome + ')')
         log = obs['files'].get(f'L/{name}.log') if name_is_usable(name) else None
         has_dir = name_is_usable(name) and (f'R/{name}/' in obs['files']
                                             or any(p.startswith(f'R/{name}/') for p in obs['files']))
         items.append('(' + cstr(name) + ', ' + clist(steps) + ', (mk_code_obs '
-                     + ('DONE' if tob['status'] == 'DONE' else 'FAILED') + ' ' + copt(log, cstr) + ' '
+                     + ('DONE' if tob['status'] == 'DONE' else 'FAILED') + ' ' + copt(log, cbytes) + ' '
                      + ('true' if has_dir else 'false') + '))')
     return items
 
@@ -698,7 +722,7 @@ def coq_outcome(spec):
     started, code, out, err = spec_outcome(spec)
     if not started:
         return 'CannotStart'
-    return f'(Exited {cz(code)} {cstr(out)} {cstr(err)})'
+    return f'(Exited {cz(code)} {cbytes(out)} {cbytes(err)})'
 
 
 def coq_case(case, obs):
@@ -713,7 +737,7 @@ def coq_case(case, obs):
         observations.append('(mk_obs ' + status + ' '
                             + copt(tob['codes'], lambda cs: clist([cz(c) for c in cs])) + ' '
                             + copt(tob['dir'], lambda d: clist([cstr(c) for c in d])) + ')')
-    files = ['(' + clist([cstr(c) for c in path]) + ', ' + cstr(content) + ')'
+    files = ['(' + clist([cstr(c) for c in path]) + ', ' + cbytes(content) + ')'
              for path, content in obs['files']]
     return ('(' + clist(tasks) + ',\n  ' + clist(observations) + ',\n  ' + clist(files) + ')')
 
